@@ -902,6 +902,17 @@ func (s *laSys) observe() {
 			}
 			continue
 		}
+		owed := 0
+		for c := range m.first {
+			if !m.verified[c] {
+				owed++
+			}
+		}
+		if owed == 0 {
+			// every coordinate of the first set has been retrieved: nothing is pending, so sampling
+			// the block again (e.g. after its record was lost) replaces no pending coordinate
+			continue
+		}
 		var extra, missing []vCoord
 		for c := range req {
 			if !m.first[c] {
@@ -995,7 +1006,8 @@ func (s *laSys) Fingerprint() string {
 		if m.first != nil {
 			first = vSetStr(m.first)
 		}
-		fmt.Fprintf(&b, "h%d first[%s] ver[%s] unrec=%s inst=%s disk=%s|", blk.height, first, vSetStr(m.verified), m.unrecorded,
+		// unrec/rec do not change behaviour, only the diagnosis (signature) of a later re-draw
+		fmt.Fprintf(&b, "h%d first[%s] ver[%s] unrec=%s rec=%v inst=%s disk=%s|", blk.height, first, vSetStr(m.verified), m.unrecorded, m.recorded,
 			recStr(ri, oki), recStr(rd, okd))
 	}
 	pend := map[int]*vPend{}
@@ -1458,6 +1470,7 @@ func TestVerifC03(t *testing.T) {
 		rep.Set("crash_event_disabled_by_env", true)
 	}
 	var mu sync.Mutex
+	confirmed := map[string]bool{}
 	allEvents := map[string]int64{}
 	var selfChecked int
 	for _, cfg := range runs {
@@ -1487,8 +1500,12 @@ func TestVerifC03(t *testing.T) {
 				rep.Infra(fmt.Sprintf("%v hist=%v cfg=%s", err, hist, cfg))
 				return
 			}
-			// believed only if it reproduces 5/5 on fresh instances
-			for k := 0; k < 5; k++ {
+			// believed only if it reproduces 5/5 on fresh instances (once per signature and configuration)
+			mu.Lock()
+			done := confirmed[cfg.String()+sig]
+			confirmed[cfg.String()+sig] = true
+			mu.Unlock()
+			for k := 0; k < 5 && !done; k++ {
 				e2, _ := vRunHistory(t, cfg, hist, true, false)
 				if e2 == nil || vSig(e2) != sig {
 					rep.Infra(fmt.Sprintf("NONDETERMINISM: %q reported for %v but re-execution %d gave %v", sig, hist, k, e2))
